@@ -52,6 +52,7 @@ func checkC10(e *Engine, r *Report) {
 	specGetAllow := CallSpec{pkgCpcKeeper, "Keeper", "GetErc20CpcAllowance"}
 	specAllowKey := CallSpec{pkgCpcTypes, "", "Erc20CustomPrecompiledContractAllowanceKey"}
 
+	moverRegion := e.privateRegion(transfer)
 	var erc20Exec []*Executor
 	for _, x := range executorCensus(e) {
 		if strings.HasPrefix(x.Name(), "erc20") {
@@ -72,7 +73,7 @@ func checkC10(e *Engine, r *Report) {
 			}
 			nBank++
 			nm := calleeObj(cs.Call).Name()
-			ok := top == transfer && (nm == "SendCoins" || nm == "SendCoinsFromAccountToModule" || nm == "BurnCoins")
+			ok := moverRegion.in[top] && (nm == "SendCoins" || nm == "SendCoinsFromAccountToModule" || nm == "BurnCoins")
 			r.Check(ok, "bank mutator › "+fnKey(cs.Fn)+" › "+nm, e.Pos(cs.Call.Pos()), "in transfer()", "ERC-20 precompile code moves/mints/burns coins outside the single transfer() mover or with a primitive other than SendCoins / SendCoinsFromAccountToModule+BurnCoins: bypasses the caller-or-allowance check or the Transfer log")
 		}
 		if nBank < 3 {
@@ -227,8 +228,10 @@ func checkC10(e *Engine, r *Report) {
 	r.Rule("R4", "PAIR+PROVENANCE", "transfer(): balance-sufficiency is an error-returning test on bank GetBalance(from, denom); SendCoins moves coins built from (denom, amount) from `from` to `to`; the burn pair uses one coins value and happens only for to == zero; every bank error is returned; every success return passes exactly one AddLog whose topics derive from from/to and data from amount; approve likewise emits one log and writes allowance(caller, spender) = value", 10, func() {
 		ctxP, fromP, toP, amtP, addrP := ssa.Value(transfer.Params[1]), ssa.Value(transfer.Params[2]), ssa.Value(transfer.Params[3]), ssa.Value(transfer.Params[4]), ssa.Value(transfer.Params[5])
 		_ = ctxP
+		// the mover together with private helpers extracted from it (each called from exactly one site inside the region)
+		reg := e.privateRegion(transfer)
 		derives := func(v ssa.Value, ps ...ssa.Value) bool {
-			sl := sliceFrom(v)
+			sl := reg.Slice(v)
 			for _, p := range ps {
 				if !sl.HasValue(p) {
 					return false
@@ -236,10 +239,11 @@ func checkC10(e *Engine, r *Report) {
 			}
 			return true
 		}
-		denomOK := func(v ssa.Value) bool { return hasFieldLoad(sliceFrom(v), "", "MinDenom") }
+		denomOK := func(v ssa.Value) bool { return hasFieldLoad(reg.Slice(v), "", "MinDenom") }
 		bank := func(name string) []ssa.CallInstruction {
-			return callsIn(transfer, false, func(c ssa.CallInstruction) bool { return isBankCall(c, map[string]bool{name: true}) })
+			return reg.Calls(func(c ssa.CallInstruction) bool { return isBankCall(c, map[string]bool{name: true}) })
 		}
+		sameV := func(a, b ssa.Value) bool { return sameLocal(reg.Resolve(a), reg.Resolve(b)) }
 		send, a2m, burn, getBal := bank("SendCoins"), bank("SendCoinsFromAccountToModule"), bank("BurnCoins"), bank("GetBalance")
 		if len(send) != 1 || len(a2m) != 1 || len(burn) != 1 || len(getBal) < 1 {
 			r.Bad("transfer › bank calls", e.Pos(transfer.Pos()), "transfer() does not contain exactly one SendCoins, one SendCoinsFromAccountToModule, one BurnCoins and a GetBalance")
@@ -249,11 +253,11 @@ func checkC10(e *Engine, r *Report) {
 		r.Check(derives(sa[1], fromP) && !derives(sa[1], toP) && derives(sa[2], toP) && !derives(sa[2], fromP), "transfer › SendCoins(from → to)", e.Pos(send[0].Pos()), "sender=from, recipient=to", "SendCoins does not move from `from` to `to`")
 		r.Check(derives(sa[3], amtP) && denomOK(sa[3]), "transfer › SendCoins amount", e.Pos(send[0].Pos()), "coins = (MinDenom, amount)", "the coins sent are not built from the contract's denomination and the stated amount")
 		ba, bb := a2m[0].Common().Args, burn[0].Common().Args
-		r.Check(derives(ba[1], fromP) && sameLocal(ba[3], bb[2]) && derives(ba[3], amtP) && denomOK(ba[3]) && sameLocal(ba[2], bb[1]),
+		r.Check(derives(ba[1], fromP) && sameV(ba[3], bb[2]) && derives(ba[3], amtP) && denomOK(ba[3]) && sameV(ba[2], bb[1]),
 			"transfer › burn pair", e.Pos(a2m[0].Pos()), "from → module, burn same coins from same module", "the burn path does not take exactly `amount` of the denomination from `from` and burn that same coins value from the same module")
-		r.Check(sameLocal(sa[3], ba[3]) || (derives(sa[3], amtP) && derives(ba[3], amtP)), "transfer › one coins value", e.Pos(send[0].Pos()), "send and burn use the amount", "")
+		r.Check(sameV(sa[3], ba[3]) || (derives(sa[3], amtP) && derives(ba[3], amtP)), "transfer › one coins value", e.Pos(send[0].Pos()), "send and burn use the amount", "")
 		// burn only under to == zero address
-		isTo := func(v ssa.Value) bool { return resolveLocal(v) == toP }
+		isTo := func(v ssa.Value) bool { return reg.Resolve(v) == toP }
 		isZeroAddr := func(v ssa.Value) bool {
 			v = resolveLocal(v)
 			if c, ok := v.(*ssa.Const); ok {
@@ -266,15 +270,21 @@ func checkC10(e *Engine, r *Report) {
 			}
 			return false
 		}
-		gZero := eqGuards(transfer, true, isTo, isZeroAddr)
-		r.Check(mustPass(transfer, a2m[0], gZero) && mustPass(transfer, burn[0], gZero), "transfer › burn only for to == zero address", e.Pos(burn[0].Pos()), "burn dominated by to == 0x0", "coins are burnt on a path where the recipient is not the zero address")
-		gNotZero := eqGuards(transfer, false, isTo, isZeroAddr)
-		r.Check(mustPass(transfer, send[0], gNotZero), "transfer › SendCoins only for to != zero address", e.Pos(send[0].Pos()), "send dominated by to != 0x0", "")
+		// the guard lives in the function that holds the call (the mover itself, or a helper extracted from it)
+		guardedIn := func(c ssa.CallInstruction, onEqual bool) bool {
+			f := c.Parent()
+			return mustPass(f, c, eqGuards(f, onEqual, isTo, isZeroAddr))
+		}
+		r.Check(guardedIn(a2m[0], true) && guardedIn(burn[0], true), "transfer › burn only for to == zero address", e.Pos(burn[0].Pos()), "burn dominated by to == 0x0", "coins are burnt on a path where the recipient is not the zero address")
+		r.Check(guardedIn(send[0], false), "transfer › SendCoins only for to != zero address", e.Pos(send[0].Pos()), "send dominated by to != 0x0", "")
 		// sufficiency
 		gb := getBal[0]
 		okBal := derives(gb.Common().Args[1], fromP) && denomOK(gb.Common().Args[2])
 		var gSuf []Guard
 		for _, g := range bigCmpGuards(transfer, "ge", func(v ssa.Value) bool { return sliceFrom(v).HasValue(gb.(ssa.Value)) }, func(v ssa.Value) bool { return resolveLocal(v) == amtP }) {
+			if gb.Parent() != transfer {
+				break // the sufficiency test itself must stay in the mover
+			}
 			if failEdgeReturnsError(transfer, g, func(i ssa.Instruction) bool {
 				c, ok := i.(ssa.CallInstruction)
 				return ok && isBankCall(c, bankMutators)
@@ -282,17 +292,10 @@ func checkC10(e *Engine, r *Report) {
 				gSuf = append(gSuf, g)
 			}
 		}
-		r.Check(okBal && len(gSuf) > 0 && mustPass(transfer, send[0], gSuf) && mustPass(transfer, a2m[0], gSuf), "transfer › insufficient balance is an error", e.Pos(gb.Pos()), "balance(from, denom) >= amount dominates the move", "coins are moved without an error-returning test of from's balance of the contract's denomination against the amount")
+		r.Check(okBal && len(gSuf) > 0 && mustPass(transfer, reg.Anchor(send[0].(ssa.Instruction)), gSuf) && mustPass(transfer, reg.Anchor(a2m[0].(ssa.Instruction)), gSuf), "transfer › insufficient balance is an error", e.Pos(gb.Pos()), "balance(from, denom) >= amount dominates the move", "coins are moved without an error-returning test of from's balance of the contract's denomination against the amount")
 		// bank errors returned
 		for _, c := range []ssa.CallInstruction{send[0], a2m[0], burn[0]} {
-			cc := c
-			gs := errNilGuards(transfer, func(x *ssa.Call) bool { return ssa.CallInstruction(x) == cc })
-			ok := false
-			for _, g := range gs {
-				if failEdgeReturnsError(transfer, g, nil) {
-					ok = true
-				}
-			}
+			ok := reg.ErrorPropagated(c)
 			r.Check(ok, "transfer › error of "+calleeObj(c).Name()+" returned", e.Pos(c.Pos()), "err != nil → return err", "the error of the bank call is not returned: a failed move is reported as a successful transfer (log + true)")
 		}
 		// one log
@@ -315,7 +318,7 @@ func checkC10(e *Engine, r *Report) {
 			la := lg.Common().Args[0]
 			r.Check(derives(la, fromP, toP, amtP, addrP), "transfer › log built from (contract, from, to, amount)", e.Pos(lg.Pos()), "topics/data derive from the parameters", "the Transfer log does not carry the contract address, from, to and amount of this transfer")
 			// log must come after the moves on every path (a failed move returns before the log)
-			r.Check(!reachesFrom(transfer, lg.(ssa.Instruction), send[0].(ssa.Instruction)) && !reachesFrom(transfer, lg.(ssa.Instruction), a2m[0].(ssa.Instruction)), "transfer › log after the move", e.Pos(lg.Pos()), "no bank move after AddLog", "the Transfer log is emitted before the coins are moved")
+			r.Check(!reachesFrom(transfer, lg.(ssa.Instruction), reg.Anchor(send[0].(ssa.Instruction))) && !reachesFrom(transfer, lg.(ssa.Instruction), reg.Anchor(a2m[0].(ssa.Instruction))), "transfer › log after the move", e.Pos(lg.Pos()), "no bank move after AddLog", "the Transfer log is emitted before the coins are moved")
 		}
 		// approve
 		sets := callsTo(approve, false, specSetAllow)
